@@ -260,6 +260,14 @@ def array_cases(ctx):
                 if "{a}" in use:
                     vv["a"] = 0.25
                 out.append((src, vv, names))
+    # parameters whose names begin like the whole-array parameter or like its generated element names (P_scale, P_0, Px),
+    # written before and after the array declaration
+    for (r, c), extra, before in itertools.product(((1, 2), (2, 2)), ("P_scale", "P_0", "Px", "P_0_0_x", "PP"), (True, False)):
+        decl = "float array A[%d, %d] =\n    {P}\n" % (r, c)
+        other = "float x = {%s}\n" % extra
+        src = (other + decl if before else decl + other) + "G(x, A) | 0\n"
+        arr = [[0.5 * (1 + i * c + j) for j in range(c)] for i in range(r)]
+        out.append((src, {"P": arr, extra: 0.25}, ["P_%d_%d" % (i, j) for i in range(r) for j in range(c)] + [extra]))
     return out
 
 
